@@ -214,11 +214,26 @@ inductive ParseErr where
   | syntax | remain | fuel
   deriving DecidableEq, Repr
 
-/-- `expr::parse` + the "nothing may remain" test of `query` -/
+mutual
+/-- nesting depth of `expr` (parentheses, predicates, function arguments) in a tree -/
+def exprDepth : CST → Nat
+  | .leaf _ => 0
+  | .node n c => if n == N.expr then exprDepth c + 1 else exprDepth c
+  | .seq ks => exprDepthL ks
+  | .many ks => exprDepthL ks
+def exprDepthL : List CST → Nat
+  | [] => 0
+  | c :: cs => max (exprDepth c) (exprDepthL cs)
+end
+
+/-- `expr::parse` + the "nothing may remain" test of `query`; an expression nested deeper than the
+    limit read from the source (`MAX_EXPR_DEPTH`, 0 = no limit) is a syntax error -/
 def parseExpr (s : Str) : Except ParseErr Expr :=
   match run Gen.XPath.env (xpathFuel s) (.nt N.parse) s with
   | .fuel => .error .fuel
   | .fail => .error .syntax
-  | .ok c rest => if rest.isEmpty then .ok (absNode (c.size + 2) N.parse (match c with | .node _ b => b | x => x)) else .error .remain
+  | .ok c rest =>
+    if maxDepth_expr != 0 && exprDepth c > maxDepth_expr then .error .syntax
+    else if rest.isEmpty then .ok (absNode (c.size + 2) N.parse (match c with | .node _ b => b | x => x)) else .error .remain
 
 end XmlRs.XPath
